@@ -19,6 +19,11 @@ guarded hooks (pedal.sandbox.timeout._VERIF_SYNC):
   ("e2": "threaded" in the scenario: the next execution is a threaded run as well - it ends by itself)
   dies_at_claim  (gate_* programs; needs the `grader:decided` hook) the student code ends, and its thread is gone,
                  between the grader's decision to give up on it and the terminate() call
+  ("between": "clear" in the scenario: right after run(threaded=True) returned - before the abandoned thread is let
+   go - the grader empties the sandbox's execution history, `Sandbox.clear_context()`, part of what `clear_sandbox()`
+   does between two attempts.  Context ids restart then by design; the observation reports them continued (+ the
+   id reached before), so that it reads like any other.  Whatever the abandoned thread uses to recognise "its"
+   execution must survive that.)
 
 NO VERDICT DEPENDS ON HOW FAST THIS MACHINE IS.  Every wait has a cap; a cap that expires, or a precondition of the
 forcing that was not met because a thread was starved (the student's code had not got going when the time ran out),
@@ -86,6 +91,7 @@ def main():
     sc = json.loads(sys.argv[1])
     program, position, limit = sc["program"], sc["position"], float(sc.get("limit", 0.25))
     e2_threaded = sc.get("e2") == "threaded"
+    clear_between = sc.get("between") == "clear"
     # hand the GIL over quickly: a surviving student loop would otherwise cost the grader thread 5 ms at every
     # blocking call (convoy effect); this changes how fast threads alternate, not what they do
     sys.setswitchinterval(0.0005)
@@ -218,12 +224,14 @@ def main():
     wd = threading.Thread(target=watchdog, daemon=True)
     wd.start()
 
+    ids = {"offset": 0}     # context ids restart when the history is cleared; reported continued
+
     def snap():
         return {"exc": type(sb.exception).__name__ if sb.exception is not None else None,
                 "patch_depth": len(sb._current_patches), "stdout_depth": len(sb._current_stdout),
                 "sys_stdout_real": sys.stdout is real_stdout,
                 "labels": [f.label for f in MAIN_REPORT.feedback],
-                "next_id": sb._next_context_id}
+                "next_id": sb._next_context_id + ids["offset"]}
 
     def settle_student():
         t = st["thread"]
@@ -246,6 +254,12 @@ def main():
     obs["escaped"] = escaped
     obs["at_return"] = snap()
     n_e1 = len(sb._context)
+    e1 = sb._context[n_e1 - 1] if n_e1 else None
+    e1_id = None if e1 is None else e1.context_id
+    if clear_between:
+        ids["offset"] = sb._next_context_id
+        sb.clear_context()
+        n_e1 = 0
     if st["thread"] is None:        # no hooks: find the thread anyway (it is a daemon thread of this process)
         st["thread"] = next((th for th in threading.enumerate() if type(th).__name__ == "InterruptableThread"), None)
 
@@ -279,11 +293,10 @@ def main():
         settle_student()
     fin = snap()
     e2 = sb._context[-1] if len(sb._context) > n_e1 else None
-    e1 = sb._context[n_e1 - 1] if n_e1 else None
     fin.update({"e2_escaped": e2_escaped,
                 "e2_output": None if e2 is None else abstract(e2.output),
                 "e1_output": None if e1 is None else abstract(e1.output),
-                "e1_id": None if e1 is None else e1.context_id, "e2_id": None if e2 is None else e2.context_id,
+                "e1_id": e1_id, "e2_id": None if e2 is None else e2.context_id + ids["offset"],
                 "raw": abstract(sb.raw_output), "lines": abstract("\n".join(sb.output)),
                 "x": sb.data.get("x"), "n_contexts": len(sb._context),
                 "student_alive": bool(st["thread"] is not None and st["thread"].is_alive())})
